@@ -173,7 +173,14 @@ def trusted_scan(crate):
     for rel in sorted(crate.cache.keys()):
         s = crate.rd(rel)
         cut = s.find('#[cfg(test)]\nmod tests')
-        body = s if cut < 0 else s[:cut]
+        body = s
+        if cut >= 0:
+            # leave out the unit-test module only; contract blocks appended after it (verus!{..} at the end of the file) are scanned
+            try:
+                ob = s.index('{', cut)
+                body = s[:cut] + s[xf.match_close(s, ob):]
+            except (ValueError, xf.AnchorLost):
+                body = s[:cut]
         for m in re.finditer(r'assume_specification(?:<[^\[]*>)?\s*\[((?:[^\[\]]|\[[^\]]*\])+)\]', body):
             out['assume_specification'].append('%s: %s' % (rel, norm(m.group(1))))
         for m in re.finditer(r'#\[verifier::external_body\]\s*\n\s*((?:pub(?:\([a-z]+\))?\s+)?(?:const\s+[A-Z_]+|(?:broadcast\s+)?(?:proof\s+)?fn\s+\w+|struct\s+\w+))', body):
